@@ -221,6 +221,24 @@ def main(tier):
             group += [(f"eq_p({v!r})", eq_p(v)), (f"ne_p({v!r})", ne_p(v)), (f"ge_p({v!r})", ge_p(v)), (f"gt_p({v!r})", gt_p(v)), (f"le_p({v!r})", le_p(v)), (f"lt_p({v!r})", lt_p(v)),
                       (f"in_p({v!r}, 5)", in_p(v, 5)), (f"not_in_p({v!r})", not_in_p(v))]
         near.append(group)
+    # constants of different numeric types whose exact values differ although they map to one double (or nearly so): ints around
+    # 2**53 against the doubles there, Decimal / Fraction against the float nearest to them -- Python compares them exactly
+    import decimal
+    import fractions
+
+    mixed_groups = [
+        [2.0**53, 2**53, 2**53 + 1, 2**53 + 2, 2**53 - 1, float(2**53 + 2)],
+        [decimal.Decimal("0.1"), 0.1, decimal.Decimal("0.1000000000000000055511151231257827"), decimal.Decimal("0.10000000000000001"), 0.30000000000000004, decimal.Decimal("0.3")],
+        [fractions.Fraction(1, 10), 0.1, fractions.Fraction(1, 3), 1 / 3, fractions.Fraction(3602879701896397, 36028797018963968), 1],
+        [10**30, 1e30, 10**30 + 1, float(10**30) * (1 + 2e-16)],
+    ]
+    for cs in mixed_groups:
+        nprobes += cs
+        group = []
+        for v in cs:
+            group += [(f"eq_p({v!r})", eq_p(v)), (f"ne_p({v!r})", ne_p(v)), (f"ge_p({v!r})", ge_p(v)), (f"gt_p({v!r})", gt_p(v)), (f"le_p({v!r})", le_p(v)), (f"lt_p({v!r})", lt_p(v)),
+                      (f"in_p({v!r}, 5)", in_p(v, 5))]
+        near.append(group)
     nsound = 0
     for group in near:
         ntab = [[val(p_, x) for x in nprobes] for _d, p_ in group]
